@@ -38,6 +38,7 @@ def cfg():
 PTYPES = [
     ["bool"], ["int", 2], ["int", 2], ["int", 3], ["int", 4], ["char"],
     ["tuple", [["bool"], ["int", 2]]], ["list", ["int", 2], 2], ["list", ["bool"], 3], ["tuple", [["int", 2], ["int", 4]]],
+    ["tuple", [["int", 2], ["tuple", [["bool"], ["int", 4]]]]], ["tuple", [["tuple", [["bool"], ["int", 2]]], ["bool"]]],
 ]
 
 
@@ -354,6 +355,20 @@ def judge(case):  # noqa: C901
                 except Exception as e:
                     if seen.get(("st", gen_prog_key(b))) == "ok":
                         return {"status": "violation", "kind": "rebind-raises", "detail": {"src": src, "binding": b, "exc": repr(e)[:300]}, "features": feats}
+                    # binding p=v means what the function means with `p = v` as its first statement: if the library
+                    # translates that text, it cannot refuse the bind
+                    isrc = inlined_source(prog, pnames, ptypes, b, fenv)
+                    if isrc is not None:
+                        try:
+                            qlassf(isrc, defs=defs, to_compile=False, bool_optimizer=progeval.optimizer(case["opt"]))
+                            accepted = True
+                        except progeval.Timeout:
+                            raise
+                        except Exception:
+                            accepted = False
+                        if accepted:
+                            return {"status": "violation", "kind": "bind-rejects-accepted-constant",
+                                    "detail": {"src": src, "binding": b, "exc": repr(e)[:300], "accepted_as_text": isrc}, "features": feats}
                     seen[("st", gen_prog_key(b))] = "rejected"
                     feats.append("bind-rejected:" + progeval.rejection_key(e))
                     continue
@@ -439,6 +454,24 @@ def judge(case):  # noqa: C901
             judged_total += 1 if rowjudged else 0
     nontrivial = len(distinct_funcs) >= 2 and judged_total > 0
     return {"status": "ok", "nontrivial": nontrivial, "features": feats, "rows": judged_total}
+
+
+def inlined_source(prog, pnames, ptypes, b, fenv):
+    """the source of the function with the parameters removed from the signature and assigned as constants first"""
+    try:
+        p2 = dict(prog, args=[a for a in prog["args"] if a[0] not in pnames], params=[])
+        env = {n: ptypes[n] for n in pnames}
+        for n in pnames:
+            if gen_prog.expand(ptypes[n])[0] == "tuple":
+                env["tconst:" + n] = list(b[n])
+        if fenv:
+            env.update(fenv)
+        src = gen_prog.render_lib(p2, env)
+    except gen_prog.GenTypeError:
+        return None
+    lines = src.split("\n")
+    consts = ["    %s = %r" % (n, pyvalue(ptypes[n], b[n])) for n in pnames]
+    return "\n".join([lines[0]] + consts + lines[1:])
 
 
 def gen_prog_key(b):
